@@ -72,9 +72,10 @@ def run(R):
     if problems:
         zc.violation(R, 'c02', problems, 'rtc/zones c01 zonedb <oracle> <zlo> <zhi> %d ; rtc/zones c02x <oracle> <zlo> <zhi> %d' % (step, step))
     R.assumptions += [
+        'ghost views of table arrays (rule_from/rule_to/rule_month/era_until, reg_namekey/reg_zoneid/reg_zoneinfo) are DEFINED as the value stored at entry i of the unmodified table; instances of these definitions enter a proof only at the entry an accessor call touches (Contract.defs, assumed at call sites, never an obligation) -- a conservative definitional extension; the accessors themselves (rule(i), era(i), zoneInfo(i)) are verified for the address they return',
         'BOUNDED (never counted as proved): equality with zic and basic == extended are evaluated on the real code (quick: transition neighbourhoods + daily grid; thorough: every minute)',
         'oracle as in C01; hook ACE_TIME_VERIF_HOOKS counts transitions dropped by BasicZoneProcessor::addTransition',
     ]
     return check.finish(R, 'exploration',
-        'Leaf contracts (decoders, basic brokers, calcStartDayOfMonth) PROVED from the IR; preconditions of the basic processor '
+        'Leaf contracts (decoders, basic brokers, calcStartDayOfMonth, priorYearOfRule, compareRulesBeforeYear, findLatestPriorRule, findZoneEra, findMatch, calcRuleOffsetMinutes) PROVED from the IR; preconditions of the basic processor '
         'as ground obligations over the shipped zonedb tables; the end-to-end statements by the bounded stand-in.')
